@@ -100,7 +100,7 @@ type c16X struct {
 	piPtr   []*openapi3.PathItem
 }
 
-func sortedKeys[E any](m map[string]E) []string {
+func c16_sortedKeys[E any](m map[string]E) []string {
 	out := make([]string, 0, len(m))
 	for k := range m {
 		out = append(out, k)
@@ -165,7 +165,7 @@ func (x *c16X) schemaVal(s *openapi3.Schema) int {
 			add(r)
 		}
 	}
-	for _, n := range sortedKeys(s.Properties) {
+	for _, n := range c16_sortedKeys(s.Properties) {
 		add(s.Properties[n])
 	}
 	add(s.Not)
@@ -177,20 +177,20 @@ func (x *c16X) schemaVal(s *openapi3.Schema) int {
 
 func (x *c16X) content(c openapi3.Content) []c16MT {
 	out := []c16MT{}
-	for _, n := range sortedKeys(c) {
+	for _, n := range c16_sortedKeys(c) {
 		mt := c[n]
 		if mt == nil {
 			continue
 		}
 		m := c16MT{Schema: x.schemaCell(mt.Schema), Ex: []int{}, Enc: [][]int{}}
-		for _, en := range sortedKeys(mt.Examples) {
+		for _, en := range c16_sortedKeys(mt.Examples) {
 			m.Ex = append(m.Ex, x.exampleCell(mt.Examples[en]))
 		}
-		for _, en := range sortedKeys(mt.Encoding) {
+		for _, en := range c16_sortedKeys(mt.Encoding) {
 			e := mt.Encoding[en]
 			hs := []int{}
 			if e != nil {
-				for _, hn := range sortedKeys(e.Headers) {
+				for _, hn := range c16_sortedKeys(e.Headers) {
 					hs = append(hs, x.headerCell(e.Headers[hn]))
 				}
 			}
@@ -289,13 +289,13 @@ func (x *c16X) responseCell(r *openapi3.ResponseRef) int {
 		x.h.Cells[id].Val = v
 		if fv {
 			hs := []int{}
-			for _, n := range sortedKeys(r.Value.Headers) {
+			for _, n := range c16_sortedKeys(r.Value.Headers) {
 				hs = append(hs, x.headerCell(r.Value.Headers[n]))
 			}
 			x.h.Vals[v].Headers = hs
 			x.h.Vals[v].Content = x.content(r.Value.Content)
 			ls := []int{}
-			for _, n := range sortedKeys(r.Value.Links) {
+			for _, n := range c16_sortedKeys(r.Value.Links) {
 				ls = append(ls, x.linkCell(r.Value.Links[n]))
 			}
 			x.h.Vals[v].Links = ls
@@ -315,7 +315,7 @@ func (x *c16X) callbackCell(c *openapi3.CallbackRef) int {
 		if fv {
 			m := c.Value.Map()
 			items := []int{}
-			for _, n := range sortedKeys(m) {
+			for _, n := range c16_sortedKeys(m) {
 				items = append(items, x.pathItem(m[n]))
 			}
 			x.h.Vals[v].Items = items
@@ -341,15 +341,15 @@ func (x *c16X) pathItem(pi *openapi3.PathItem) int {
 	}
 	ops := []c16Op{}
 	om := pi.Operations()
-	for _, n := range sortedKeys(om) {
+	for _, n := range c16_sortedKeys(om) {
 		op := om[n]
 		o := c16Op{RB: x.reqBodyCell(op.RequestBody), Cbs: []int{}, Resps: []int{}, Params: []int{}}
-		for _, cn := range sortedKeys(op.Callbacks) {
+		for _, cn := range c16_sortedKeys(op.Callbacks) {
 			o.Cbs = append(o.Cbs, x.callbackCell(op.Callbacks[cn]))
 		}
 		if op.Responses != nil {
 			rm := op.Responses.Map()
-			for _, rn := range sortedKeys(rm) {
+			for _, rn := range c16_sortedKeys(rm) {
 				o.Resps = append(o.Resps, x.responseCell(rm[rn]))
 			}
 		}
@@ -373,37 +373,37 @@ func c16Extract(doc *openapi3.T, root string, hasURL bool) *c16X {
 	}
 	if c := doc.Components; c != nil {
 		x.h.HasComp = true
-		for _, n := range sortedKeys(c.Schemas) {
+		for _, n := range c16_sortedKeys(c.Schemas) {
 			x.h.Comps["schemas"] = append(x.h.Comps["schemas"], c16Named{n, x.schemaCell(c.Schemas[n])})
 		}
-		for _, n := range sortedKeys(c.Parameters) {
+		for _, n := range c16_sortedKeys(c.Parameters) {
 			x.h.Comps["parameters"] = append(x.h.Comps["parameters"], c16Named{n, x.paramCell(c.Parameters[n])})
 		}
-		for _, n := range sortedKeys(c.Headers) {
+		for _, n := range c16_sortedKeys(c.Headers) {
 			x.h.Comps["headers"] = append(x.h.Comps["headers"], c16Named{n, x.headerCell(c.Headers[n])})
 		}
-		for _, n := range sortedKeys(c.RequestBodies) {
+		for _, n := range c16_sortedKeys(c.RequestBodies) {
 			x.h.Comps["requestBodies"] = append(x.h.Comps["requestBodies"], c16Named{n, x.reqBodyCell(c.RequestBodies[n])})
 		}
-		for _, n := range sortedKeys(c.Responses) {
+		for _, n := range c16_sortedKeys(c.Responses) {
 			x.h.Comps["responses"] = append(x.h.Comps["responses"], c16Named{n, x.responseCell(c.Responses[n])})
 		}
-		for _, n := range sortedKeys(c.SecuritySchemes) {
+		for _, n := range c16_sortedKeys(c.SecuritySchemes) {
 			x.h.Comps["securitySchemes"] = append(x.h.Comps["securitySchemes"], c16Named{n, x.secCell(c.SecuritySchemes[n])})
 		}
-		for _, n := range sortedKeys(c.Examples) {
+		for _, n := range c16_sortedKeys(c.Examples) {
 			x.h.Comps["examples"] = append(x.h.Comps["examples"], c16Named{n, x.exampleCell(c.Examples[n])})
 		}
-		for _, n := range sortedKeys(c.Links) {
+		for _, n := range c16_sortedKeys(c.Links) {
 			x.h.Comps["links"] = append(x.h.Comps["links"], c16Named{n, x.linkCell(c.Links[n])})
 		}
-		for _, n := range sortedKeys(c.Callbacks) {
+		for _, n := range c16_sortedKeys(c.Callbacks) {
 			x.h.Comps["callbacks"] = append(x.h.Comps["callbacks"], c16Named{n, x.callbackCell(c.Callbacks[n])})
 		}
 	}
 	if doc.Paths != nil {
 		m := doc.Paths.Map()
-		for _, n := range sortedKeys(m) {
+		for _, n := range c16_sortedKeys(m) {
 			x.h.Paths = append(x.h.Paths, x.pathItem(m[n]))
 		}
 	}
@@ -591,15 +591,15 @@ func c16CompNames(doc *openapi3.T) map[string][]string {
 	if c == nil {
 		return out
 	}
-	out["schemas"] = sortedKeys(c.Schemas)
-	out["parameters"] = sortedKeys(c.Parameters)
-	out["headers"] = sortedKeys(c.Headers)
-	out["requestBodies"] = sortedKeys(c.RequestBodies)
-	out["responses"] = sortedKeys(c.Responses)
-	out["securitySchemes"] = sortedKeys(c.SecuritySchemes)
-	out["examples"] = sortedKeys(c.Examples)
-	out["links"] = sortedKeys(c.Links)
-	out["callbacks"] = sortedKeys(c.Callbacks)
+	out["schemas"] = c16_sortedKeys(c.Schemas)
+	out["parameters"] = c16_sortedKeys(c.Parameters)
+	out["headers"] = c16_sortedKeys(c.Headers)
+	out["requestBodies"] = c16_sortedKeys(c.RequestBodies)
+	out["responses"] = c16_sortedKeys(c.Responses)
+	out["securitySchemes"] = c16_sortedKeys(c.SecuritySchemes)
+	out["examples"] = c16_sortedKeys(c.Examples)
+	out["links"] = c16_sortedKeys(c.Links)
+	out["callbacks"] = c16_sortedKeys(c.Callbacks)
 	return out
 }
 
@@ -651,13 +651,13 @@ func c16Verdicts(doc *openapi3.T) []string {
 		return out
 	}
 	m := doc.Paths.Map()
-	for _, pn := range sortedKeys(m) {
+	for _, pn := range c16_sortedKeys(m) {
 		pi := m[pn]
 		if pi == nil {
 			continue
 		}
 		om := pi.Operations()
-		for _, method := range sortedKeys(om) {
+		for _, method := range c16_sortedKeys(om) {
 			op := om[method]
 			for bi, body := range c16Bodies {
 				pv := c16ParamVals[bi%len(c16ParamVals)]
@@ -1302,7 +1302,7 @@ func c16RootDoc(comps map[string]any, paths map[string]any) map[string]any {
 	return map[string]any{"openapi": "3.0.0", "info": map[string]any{"title": "t", "version": "1"}, "paths": paths, "components": comps}
 }
 
-func jm(kv ...any) map[string]any {
+func c16_jm(kv ...any) map[string]any {
 	m := map[string]any{}
 	for i := 0; i+1 < len(kv); i += 2 {
 		m[kv[i].(string)] = kv[i+1]
@@ -1310,57 +1310,57 @@ func jm(kv ...any) map[string]any {
 	return m
 }
 func jref(s string) map[string]any { return map[string]any{"$ref": s} }
-func jstrS(n int) map[string]any   { return jm("type", "string", "maxLength", n) }
+func jstrS(n int) map[string]any   { return c16_jm("type", "string", "maxLength", n) }
 
 func c16Op200(resp any) map[string]any {
-	return jm("/x", jm("post", jm("responses", jm("200", resp))))
+	return c16_jm("/x", c16_jm("post", c16_jm("responses", c16_jm("200", resp))))
 }
 
 func c16Witnesses() []c16Named2 {
-	objP := func(p any) map[string]any { return jm("type", "object", "properties", jm("p", p)) }
-	encMT := jm("schema", jm("type", "object", "properties", jm("f", jstrS(9))), "encoding", jm("f", jm("headers", jm("H", jref("#/components/headers/HH")))))
+	objP := func(p any) map[string]any { return c16_jm("type", "object", "properties", c16_jm("p", p)) }
+	encMT := c16_jm("schema", c16_jm("type", "object", "properties", c16_jm("f", jstrS(9))), "encoding", c16_jm("f", c16_jm("headers", c16_jm("H", jref("#/components/headers/HH")))))
 	return []c16Named2{
 		{"f17-underscore-vs-slash", "openapi.json", map[string]any{
-			"openapi.json": c16RootDoc(jm("schemas", jm("A", objP(jref("s/a_b.json")), "B", objP(jref("s/a/b.json")))), nil),
-			"s/a_b.json":   jstrS(3), "s/a/b.json": jm("type", "integer", "maximum", 4)}},
+			"openapi.json": c16RootDoc(c16_jm("schemas", c16_jm("A", objP(jref("s/a_b.json")), "B", objP(jref("s/a/b.json")))), nil),
+			"s/a_b.json":   jstrS(3), "s/a/b.json": c16_jm("type", "integer", "maximum", 4)}},
 		{"f17-prefix-trim", "a/openapi.json", map[string]any{
-			"a/openapi.json": c16RootDoc(jm("schemas", jm("A", objP(jref("../ab/x.json")), "B", objP(jref("../b/x.json")))), nil),
-			"ab/x.json":      jstrS(3), "b/x.json": jm("type", "integer", "maximum", 4)}},
+			"a/openapi.json": c16RootDoc(c16_jm("schemas", c16_jm("A", objP(jref("../ab/x.json")), "B", objP(jref("../b/x.json")))), nil),
+			"ab/x.json":      jstrS(3), "b/x.json": c16_jm("type", "integer", "maximum", 4)}},
 		{"f17-file-vs-fragment", "openapi.json", map[string]any{
-			"openapi.json": c16RootDoc(jm("schemas", jm("A", objP(jref("a/b.json#/components/schemas/C")), "B", objP(jref("a/b/C.json")))), nil),
-			"a/b.json":     jm("components", jm("schemas", jm("C", jstrS(3)))), "a/b/C.json": jm("type", "integer", "maximum", 4)}},
+			"openapi.json": c16RootDoc(c16_jm("schemas", c16_jm("A", objP(jref("a/b.json#/components/schemas/C")), "B", objP(jref("a/b/C.json")))), nil),
+			"a/b.json":     c16_jm("components", c16_jm("schemas", c16_jm("C", jstrS(3)))), "a/b/C.json": c16_jm("type", "integer", "maximum", 4)}},
 		{"f41-encoding-header-ref", "openapi.json", map[string]any{
-			"openapi.json": c16RootDoc(jm("headers", jm("HH", jm("schema", jstrS(5)))),
-				jm("/x", jm("post", jm("requestBody", jm("content", jm("multipart/form-data", encMT)), "responses", jm("200", jm("description", "ok")))))),
+			"openapi.json": c16RootDoc(c16_jm("headers", c16_jm("HH", c16_jm("schema", jstrS(5)))),
+				c16_jm("/x", c16_jm("post", c16_jm("requestBody", c16_jm("content", c16_jm("multipart/form-data", encMT)), "responses", c16_jm("200", c16_jm("description", "ok")))))),
 		}},
 		{"fix18-absolute-root-backref", "/r/a/openapi.json", map[string]any{
-			"/r/a/openapi.json": c16RootDoc(jm("schemas", jm("R", jstrS(3), "S", jref("ext.json"))), nil),
+			"/r/a/openapi.json": c16RootDoc(c16_jm("schemas", c16_jm("R", jstrS(3), "S", jref("ext.json"))), nil),
 			"/r/a/ext.json":     objP(jref("openapi.json#/components/schemas/R"))}},
 		{"self-response", "openapi.json", map[string]any{
-			"openapi.json": c16RootDoc(jm("responses", jm("ext", jref("ext.json"))), c16Op200(jref("#/components/responses/ext"))),
-			"ext.json":     jm("description", "r1", "content", jm("application/json", jm("schema", jstrS(3))))}},
+			"openapi.json": c16RootDoc(c16_jm("responses", c16_jm("ext", jref("ext.json"))), c16Op200(jref("#/components/responses/ext"))),
+			"ext.json":     c16_jm("description", "r1", "content", c16_jm("application/json", c16_jm("schema", jstrS(3))))}},
 		{"self-header", "openapi.json", map[string]any{
-			"openapi.json": c16RootDoc(jm("headers", jm("h", jref("h.json"))), c16Op200(jm("description", "r", "headers", jm("H", jref("#/components/headers/h"))))),
-			"h.json":       jm("schema", jstrS(3))}},
+			"openapi.json": c16RootDoc(c16_jm("headers", c16_jm("h", jref("h.json"))), c16Op200(c16_jm("description", "r", "headers", c16_jm("H", jref("#/components/headers/h"))))),
+			"h.json":       c16_jm("schema", jstrS(3))}},
 		{"ext-value-first-reached-internally", "openapi.json", map[string]any{
-			"openapi.json": c16RootDoc(jm("schemas", jm("A", objP(jref("#/components/schemas/X")), "X", jref("e.json#/components/schemas/Y"))), nil),
-			"e.json":       jm("components", jm("schemas", jm("Y", jm("type", "object", "properties", jm("q", jref("#/components/schemas/Z"))), "Z", jstrS(3))))}},
+			"openapi.json": c16RootDoc(c16_jm("schemas", c16_jm("A", objP(jref("#/components/schemas/X")), "X", jref("e.json#/components/schemas/Y"))), nil),
+			"e.json":       c16_jm("components", c16_jm("schemas", c16_jm("Y", c16_jm("type", "object", "properties", c16_jm("q", jref("#/components/schemas/Z"))), "Z", jstrS(3))))}},
 		{"m1-shape-whole-and-element", "openapi.json", map[string]any{
-			"openapi.json":       c16RootDoc(jm("schemas", jm("Envelope", jm("type", "object", "properties", jm("id", jref("schemas/record.json#/properties/id"))), "Record", jref("schemas/record.json"))), nil),
-			"schemas/record.json": jm("type", "object", "properties", jm("id", jstrS(7)))}},
+			"openapi.json":       c16RootDoc(c16_jm("schemas", c16_jm("Envelope", c16_jm("type", "object", "properties", c16_jm("id", jref("schemas/record.json#/properties/id"))), "Record", jref("schemas/record.json"))), nil),
+			"schemas/record.json": c16_jm("type", "object", "properties", c16_jm("id", jstrS(7)))}},
 		{"shared-header-twice", "openapi.json", map[string]any{
-			"openapi.json": c16RootDoc(jm(), jm("/x", jm("post", jm("responses", jm("200", jm("description", "a", "headers", jm("H", jref("common/h.json#/components/headers/RL"))),
-				"201", jm("description", "b", "headers", jm("H", jref("common/h.json#/components/headers/RL")))))))),
-			"common/h.json": jm("components", jm("headers", jm("RL", jm("schema", jm("type", "integer", "maximum", 9)))))}},
+			"openapi.json": c16RootDoc(c16_jm(), c16_jm("/x", c16_jm("post", c16_jm("responses", c16_jm("200", c16_jm("description", "a", "headers", c16_jm("H", jref("common/h.json#/components/headers/RL"))),
+				"201", c16_jm("description", "b", "headers", c16_jm("H", jref("common/h.json#/components/headers/RL")))))))),
+			"common/h.json": c16_jm("components", c16_jm("headers", c16_jm("RL", c16_jm("schema", c16_jm("type", "integer", "maximum", 9)))))}},
 		{"wrongrefpath-link-empty-name", "openapi.json", map[string]any{
-			"openapi.json":    c16RootDoc(jm(), c16Op200(jm("description", "r4", "links", jm("l", jref("./common/lin5.json"))))),
-			"common/lin5.json": jm("description", "l6", "operationId", "opx")}},
+			"openapi.json":    c16RootDoc(c16_jm(), c16Op200(c16_jm("description", "r4", "links", c16_jm("l", jref("./common/lin5.json"))))),
+			"common/lin5.json": c16_jm("description", "l6", "operationId", "opx")}},
 		{"flag-dropped-inline-path-item-of-external-callback", "openapi.json", map[string]any{
-			"openapi.json": c16RootDoc(jm("callbacks", jm("T1", jref("sub/defs2.json#/components/callbacks/N2"))), nil),
-			"sub/defs2.json": jm("components", jm("callbacks", jm("N2", jm("{$request.body#/u}", jm("post", jm("parameters", []any{jm("in", "query", "name", "p7", "schema", jref("#/components/schemas/N8"))},
-				"responses", jm("200", jm("description", "r")))))), "schemas", jm("N8", jm("type", "integer", "maximum", 9))))}},
+			"openapi.json": c16RootDoc(c16_jm("callbacks", c16_jm("T1", jref("sub/defs2.json#/components/callbacks/N2"))), nil),
+			"sub/defs2.json": c16_jm("components", c16_jm("callbacks", c16_jm("N2", c16_jm("{$request.body#/u}", c16_jm("post", c16_jm("parameters", []any{c16_jm("in", "query", "name", "p7", "schema", jref("#/components/schemas/N8"))},
+				"responses", c16_jm("200", c16_jm("description", "r")))))), "schemas", c16_jm("N8", c16_jm("type", "integer", "maximum", 9))))}},
 		{"callback-cycle", "openapi.json", map[string]any{
-			"openapi.json": c16RootDoc(jm("callbacks", jm("cb", jm("{$request.body#/u}", jm("post", jm("responses", jm("200", jm("description", "r")), "callbacks", jm("again", jref("#/components/callbacks/cb"))))))), nil)}},
+			"openapi.json": c16RootDoc(c16_jm("callbacks", c16_jm("cb", c16_jm("{$request.body#/u}", c16_jm("post", c16_jm("responses", c16_jm("200", c16_jm("description", "r")), "callbacks", c16_jm("again", jref("#/components/callbacks/cb"))))))), nil)}},
 	}
 }
 
